@@ -16,12 +16,17 @@ def recHeight (c : Cfg) (d : Store) : Nat :=
 
 /-- **The durable image is consistent with the proposer's chain**: the stored height does not exceed the
 state's height, the stored state is the state after the recorded height, and every height up to the recorded
-height has a retrievable block that is the proposer's. -/
+height has a retrievable block that is the proposer's.  Nothing is said about blocks *above* the recorded
+height: the image may hold there the block of the next height, saved before the state that says it was applied
+(or the genesis block written locally at start-up) — the node restarts below it and applies that height again.
+`wm`: the two DA-submission watermarks in the metadata parse (absent or 8 bytes; the sync loop never writes
+them, `Sync.start` writes 8 bytes). -/
 structure DiskOK (c : Cfg) (ch : PChain) (d : Store) : Prop where
   hle : d.height ≤ recHeight c d
   state : ∀ s, d.state = some s → s = stateAt c ch (recHeight c d) ∧ c.initialHeight ≤ recHeight c d
   blocks : ∀ k, c.initialHeight ≤ k → k ≤ recHeight c d →
     ∃ b sb, ch k = some b ∧ d.getBlock k = some sb ∧ SameBlock b sb
+  wm : WmOK d
 
 /-- what `start` produces from image `d` and the cache files `caches` -/
 structure Started (c : Cfg) (ch : PChain) (d : Store) (caches n : FNode) : Prop where
@@ -36,6 +41,91 @@ structure Started (c : Cfg) (ch : PChain) (d : Store) (caches n : FNode) : Prop 
          (n.store.state = none ∧ n.store.height + 1 = c.initialHeight)
   gen : n.store.height + 1 = c.initialHeight → n.store.getBlock c.initialHeight = some (genesisBlock c)
   blocks : ∀ k, k ≤ recHeight c d → n.store.getBlock k = d.getBlock k
+  wm : WmOK n.store
+
+/-! ## the tail of `start`: raising the two DA-submission watermarks to `initialHeight - 1` -/
+
+/-- the write by which `start` raises a submission watermark that reads `w` -/
+def wmW (c : Cfg) (key : String) (w : Nat) : List SW :=
+  if c.initialHeight > 1 ∧ c.initialHeight - 1 > w then [.setMeta key (le64 (c.initialHeight - 1))] else []
+
+theorem le64_len (x : Nat) : (le64 x).length = 8 := by
+  have : ∀ n x, (Bytes.le n x).length = n := by
+    intro n
+    induction n with
+    | zero => intro x; rfl
+    | succ n ih => intro x; simp [Bytes.le, ih]
+  exact this 8 x
+
+theorem wmOf_setMeta_same (d : Store) (key : String) (x : Nat) :
+    ∃ w, Producer.wmOf (d.apply (.setMeta key (le64 x))) key = some w := by
+  refine ⟨Bytes.unLe (le64 x), ?_⟩
+  simp [Producer.wmOf, Store.getMeta, Store.apply, le64_len]
+
+theorem wmOf_setMeta_other (d : Store) (key k : String) (v : Bytes) (hk : k ≠ key) :
+    Producer.wmOf (d.apply (.setMeta key v)) k = Producer.wmOf d k := by
+  have hne : ¬ key = k := fun h => hk h.symm
+  simp [Producer.wmOf, Store.getMeta, Store.apply, hne]
+
+/-- writing 8 bytes under one of the two watermark keys keeps both readable -/
+theorem wmOK_setWm {d : Store} (hw : WmOK d) (key : String) (hkey : key = Producer.hdrWmKey ∨ key = Producer.dataWmKey)
+    (x : Nat) : WmOK (d.apply (.setMeta key (le64 x))) := by
+  have hne : Producer.hdrWmKey ≠ Producer.dataWmKey := by decide
+  rcases hkey with rfl | rfl
+  · exact ⟨wmOf_setMeta_same _ _ _, by rw [wmOf_setMeta_other _ _ _ _ hne.symm]; exact hw.2⟩
+  · exact ⟨by rw [wmOf_setMeta_other _ _ _ _ hne]; exact hw.1, wmOf_setMeta_same _ _ _⟩
+
+/-- a watermark write changes nothing but the metadata -/
+theorem wmW_facts (c : Cfg) (d : Store) (key : String) (hkey : key = Producer.hdrWmKey ∨ key = Producer.dataWmKey)
+    (w : Nat) :
+    (d.applyAll (wmW c key w)).height = d.height ∧
+    (∀ k, (d.applyAll (wmW c key w)).getBlock k = d.getBlock k) ∧
+    (d.applyAll (wmW c key w)).state = d.state ∧
+    (WmOK d → WmOK (d.applyAll (wmW c key w))) := by
+  unfold wmW
+  split
+  · exact ⟨rfl, fun _ => rfl, rfl, fun hw => wmOK_setWm hw key hkey _⟩
+  · exact ⟨rfl, fun _ => rfl, rfl, id⟩
+
+/-- `start` after the state has been read / initialised and the chain height raised (`d2`) -/
+def finishStart (c : Cfg) (caches : FNode) (s : State) (d2 : Store) (ws : List SW) : Option (FNode × List SW) :=
+  match Producer.wmOf d2 Producer.hdrWmKey, Producer.wmOf d2 Producer.dataWmKey with
+  | some hw, some dw =>
+    some ({ caches with store := (d2.applyAll (wmW c Producer.hdrWmKey hw)).applyAll (wmW c Producer.dataWmKey dw),
+                        lastState := s, alive := true },
+          ws ++ wmW c Producer.hdrWmKey hw ++ wmW c Producer.dataWmKey dw)
+  | _, _ => none
+
+theorem start_none (c : Cfg) (d : Store) (caches : FNode) (hst : d.state = none) :
+    start c d caches = finishStart c caches (genesisState c)
+      ((d.apply (.saveBlock c.initialHeight (genesisBlock c))).applyAll
+        (setHeightW (d.apply (.saveBlock c.initialHeight (genesisBlock c))) (c.initialHeight - 1)))
+      ([.saveBlock c.initialHeight (genesisBlock c)] ++
+        setHeightW (d.apply (.saveBlock c.initialHeight (genesisBlock c))) (c.initialHeight - 1)) := by
+  unfold start finishStart
+  simp only [hst]
+  rfl
+
+theorem start_some (c : Cfg) (d : Store) (caches : FNode) {s : State} (hst : d.state = some s)
+    (hle : c.initialHeight ≤ s.lastHeight) :
+    start c d caches = finishStart c caches s (d.applyAll (setHeightW d s.lastHeight)) ([] ++ setHeightW d s.lastHeight) := by
+  unfold start finishStart
+  simp only [hst]
+  rw [if_neg (by omega)]
+  rfl
+
+/-- with readable watermarks the tail of `start` succeeds and touches only the metadata -/
+theorem finishStart_spec (c : Cfg) (caches : FNode) (s : State) {d2 : Store} (ws : List SW) (hw : WmOK d2) :
+    ∃ hw dw d4, finishStart c caches s d2 ws =
+        some ({ caches with store := d4, lastState := s, alive := true },
+              ws ++ wmW c Producer.hdrWmKey hw ++ wmW c Producer.dataWmKey dw) ∧
+      d4.height = d2.height ∧ (∀ k, d4.getBlock k = d2.getBlock k) ∧ d4.state = d2.state ∧ WmOK d4 := by
+  obtain ⟨⟨w1, h1⟩, ⟨w2, h2⟩⟩ := hw
+  obtain ⟨a1, a2, a3, a4⟩ := wmW_facts c d2 Producer.hdrWmKey (Or.inl rfl) w1
+  obtain ⟨b1, b2, b3, b4⟩ := wmW_facts c (d2.applyAll (wmW c Producer.hdrWmKey w1)) Producer.dataWmKey (Or.inr rfl) w2
+  refine ⟨w1, w2, _, ?_, by rw [b1, a1], fun k => by rw [b2, a2], by rw [b3, a3], b4 (a4 ⟨⟨w1, h1⟩, ⟨w2, h2⟩⟩)⟩
+  unfold finishStart
+  rw [h1, h2]
 
 theorem start_spec (g : GoodChain c ch top) {d : Store} (hd : DiskOK c ch d) (caches : FNode) :
     ∃ n ws, start c d caches = some (n, ws) ∧ Started c ch d caches n := by
@@ -45,40 +135,38 @@ theorem start_spec (g : GoodChain c ch top) {d : Store} (hd : DiskOK c ch d) (ca
     have hr : recHeight c d = c.initialHeight - 1 := by simp [recHeight, hst]
     have hle := hd.hle
     rw [hr] at hle
+    rw [start_none c d caches hst]
     generalize hd1 : d.apply (.saveBlock c.initialHeight (genesisBlock c)) = d1
     have h1h : d1.height = d.height := by rw [← hd1]; rfl
     have h1s : d1.state = none := by rw [← hd1]; exact hst
     have h1b : ∀ k, d1.getBlock k = if c.initialHeight = k then some (genesisBlock c) else d.getBlock k := by
       intro k; rw [← hd1, getBlock_saveBlock]
-    obtain ⟨a1, a2, a3, _⟩ := applyAll_setHeightW d1 (c.initialHeight - 1)
-    refine ⟨{ caches with store := d1.applyAll (setHeightW d1 (c.initialHeight - 1)), lastState := genesisState c, alive := true },
-            [.saveBlock c.initialHeight (genesisBlock c)] ++ setHeightW d1 (c.initialHeight - 1), ?_, ?_⟩
-    · unfold start
-      simp only [hst, hd1]
-      rfl
-    · have hh : (d1.applyAll (setHeightW d1 (c.initialHeight - 1))).height = c.initialHeight - 1 := by
-        rw [a1, h1h]; split <;> omega
-      refine ⟨by rw [hr]; exact hh, by rw [hr]; exact (stateAt_genesis g (by omega)).symm, rfl, rfl, rfl, rfl, rfl, ?_, ?_, ?_⟩
-      · right; exact ⟨by show (d1.applyAll _).state = none; rw [a3, h1s], by show (d1.applyAll _).height + 1 = _; rw [hh]; omega⟩
-      · intro _; show (d1.applyAll _).getBlock _ = _; rw [a2, h1b]; simp
-      · intro k hk; show (d1.applyAll _).getBlock _ = _; rw [a2, h1b, if_neg (by omega)]
+    have h1w : WmOK d1 := hd.wm.kv (by rw [← hd1]; rfl)
+    obtain ⟨a1, a2, a3, a4⟩ := applyAll_setHeightW d1 (c.initialHeight - 1)
+    obtain ⟨hw, dw, d4, e, f1, f2, f3, f4⟩ := finishStart_spec c caches (genesisState c)
+      ([.saveBlock c.initialHeight (genesisBlock c)] ++ setHeightW d1 (c.initialHeight - 1)) (h1w.kv a4)
+    refine ⟨_, _, e, ?_⟩
+    have hh : d4.height = c.initialHeight - 1 := by
+      rw [f1, a1, h1h]; split <;> omega
+    refine ⟨by rw [hr]; exact hh, by rw [hr]; exact (stateAt_genesis g (by omega)).symm, rfl, rfl, rfl, rfl, rfl, ?_, ?_, ?_, f4⟩
+    · right; exact ⟨by show d4.state = none; rw [f3, a3, h1s], by show d4.height + 1 = _; rw [hh]; omega⟩
+    · intro _; show d4.getBlock _ = _; rw [f2, a2, h1b]; simp
+    · intro k hk; show d4.getBlock _ = _; rw [f2, a2, h1b, if_neg (by omega)]
   | some s =>
     have hr : recHeight c d = s.lastHeight := by simp [recHeight, hst]
     obtain ⟨hs1, hs2⟩ := hd.state s hst
     have hle := hd.hle
     rw [hr] at hle hs2
-    obtain ⟨a1, a2, a3, _⟩ := applyAll_setHeightW d s.lastHeight
-    refine ⟨{ caches with store := d.applyAll (setHeightW d s.lastHeight), lastState := s, alive := true },
-            [] ++ setHeightW d s.lastHeight, ?_, ?_⟩
-    · unfold start
-      simp only [hst]
-      rw [if_neg (by omega)]
-    · have hh : (d.applyAll (setHeightW d s.lastHeight)).height = s.lastHeight := by
-        rw [a1]; split <;> omega
-      refine ⟨by rw [hr]; exact hh, hs1, rfl, rfl, rfl, rfl, rfl, ?_, ?_, ?_⟩
-      · left; exact ⟨by show (d.applyAll _).state = some s; rw [a3, hst], by show _ ≤ (d.applyAll _).height; rw [hh]; exact hs2⟩
-      · intro h; have : (d.applyAll (setHeightW d s.lastHeight)).height + 1 = c.initialHeight := h; omega
-      · intro k _; exact a2 k
+    rw [start_some c d caches hst hs2]
+    obtain ⟨a1, a2, a3, a4⟩ := applyAll_setHeightW d s.lastHeight
+    obtain ⟨hw, dw, d4, e, f1, f2, f3, f4⟩ := finishStart_spec c caches s ([] ++ setHeightW d s.lastHeight) (hd.wm.kv a4)
+    refine ⟨_, _, e, ?_⟩
+    have hh : d4.height = s.lastHeight := by
+      rw [f1, a1]; split <;> omega
+    refine ⟨by rw [hr]; exact hh, hs1, rfl, rfl, rfl, rfl, rfl, ?_, ?_, ?_, f4⟩
+    · left; exact ⟨by show d4.state = some s; rw [f3, a3, hst], by show _ ≤ d4.height; rw [hh]; exact hs2⟩
+    · intro h; have : d4.height + 1 = c.initialHeight := h; omega
+    · intro k _; show d4.getBlock k = _; rw [f2]; exact a2 k
 
 /-- the part of the invariant that concerns the caches -/
 structure CachesOK (ch : PChain) (evs : List Ev) (n : FNode) : Prop where
@@ -97,7 +185,7 @@ theorem started_safe {d : Store} {caches : FNode} (hd : DiskOK c ch d) (hst : St
     (hc : CachesOK ch evs caches) (hge : h0 ≤ recHeight c d)
     (hsound : ∀ k, h0 < k → k ≤ recHeight c d → Delivered ch evs k) : Safe c ch h0 evs n := by
   have hh := hst.height
-  refine ⟨hst.alive, by rw [hh]; exact hge, ?_, by rw [hh]; exact hst.st, hst.disk, hst.gen, ?_, ?_, ?_, ?_, ?_, ?_⟩
+  refine ⟨hst.alive, by rw [hh]; exact hge, ?_, by rw [hh]; exact hst.st, hst.disk, hst.gen, ?_, ?_, ?_, ?_, ?_, ?_, ?_⟩
   · rcases hst.disk with ⟨_, h⟩ | ⟨_, h⟩ <;> omega
   · intro k h1 h2
     rw [hh] at h2
@@ -108,6 +196,7 @@ theorem started_safe {d : Store} {caches : FNode} (hd : DiskOK c ch d) (hst : St
   · unfold keysH; rw [hst.hc]; exact hc.hdrSrc
   · unfold keysD; rw [hst.dc]; exact hc.datSrc
   · rw [hh]; exact hsound
+  · exact hst.wm
 
 /-- the store of a node satisfying the invariant is a consistent image whose stored height is up to date -/
 theorem Safe.diskOK (g : GoodChain c ch top) (hs : Safe c ch h0 evs n) :
@@ -117,7 +206,7 @@ theorem Safe.diskOK (g : GoodChain c ch top) (hs : Safe c ch h0 evs n) :
     rcases hs.disk with ⟨h, _⟩ | ⟨h, h'⟩
     · rw [h]; exact (hs.hs g).symm
     · rw [h]; simp only; omega
-  refine ⟨⟨by omega, ?_, ?_⟩, hr⟩
+  refine ⟨⟨by omega, ?_, ?_, hs.wm⟩, hr⟩
   · intro s hst
     rcases hs.disk with ⟨h, h'⟩ | ⟨h, _⟩
     · rw [h] at hst; cases hst
@@ -131,7 +220,7 @@ theorem Safe.diskOK (g : GoodChain c ch top) (hs : Safe c ch h0 evs n) :
 
 theorem diskOK_empty (g : GoodChain c ch top) : DiskOK c ch ({} : Store) := by
   have := g.ihPos
-  refine ⟨by show 0 ≤ _; omega, ?_, ?_⟩
+  refine ⟨by show 0 ≤ _; omega, ?_, ?_, wmOK_empty⟩
   · intro s hs; cases hs
   · intro k h1 h2
     have : recHeight c ({} : Store) = c.initialHeight - 1 := rfl
@@ -143,7 +232,18 @@ def fresh (c : Cfg) : FNode :=
   | some (n, _) => n
   | none => {}
 
-theorem start_fresh (c : Cfg) : ∃ ws, start c {} = some (fresh c, ws) := ⟨_, rfl⟩
+theorem start_fresh (c : Cfg) : ∃ ws, start c {} = some (fresh c, ws) := by
+  have h := start_none c {} {} rfl
+  obtain ⟨_, _, _, a4⟩ := applyAll_setHeightW (({} : Store).apply (.saveBlock c.initialHeight (genesisBlock c))) (c.initialHeight - 1)
+  obtain ⟨hw, dw, d4, e, _⟩ := finishStart_spec c {} (genesisState c)
+    ([.saveBlock c.initialHeight (genesisBlock c)] ++
+      setHeightW (({} : Store).apply (.saveBlock c.initialHeight (genesisBlock c))) (c.initialHeight - 1))
+    (wmOK_empty.kv (d' := (({} : Store).apply (.saveBlock c.initialHeight (genesisBlock c))).applyAll
+      (setHeightW (({} : Store).apply (.saveBlock c.initialHeight (genesisBlock c))) (c.initialHeight - 1))) (by rw [a4]; rfl))
+  rw [e] at h
+  unfold fresh
+  rw [h]
+  exact ⟨_, rfl⟩
 
 theorem fresh_safe (g : GoodChain c ch top) : Safe c ch (c.initialHeight - 1) [] (fresh c) := by
   obtain ⟨n, ws, h1, h2⟩ := start_spec g (diskOK_empty g) {}
